@@ -224,9 +224,11 @@ pub fn run<S: Scheme>(scn: &Scenario, log: &EventLog) -> RunResult {
                     let Some(orig) = sess.verifier.comms.iter().find(|c| c.label() == victim) else { continue };
                     let Some(d0) = orig.degree_bound() else { continue };
                     let pool: Vec<usize> = if S::FAMILY == Family::Ipa { (0..=scn.cfg.supported_degree).collect() } else { scn.cfg.bounds.clone().unwrap_or_default() };
+                    // every other run: any bound up to max_degree, enforced by the keys or not
+                    let pool: Vec<usize> = if f.param % 2 == 0 { pool } else { (0..=scn.cfg.max_degree).collect() };
                     let others: Vec<usize> = pool.into_iter().filter(|d| *d != d0).collect();
                     if others.is_empty() { continue; }
-                    let d = others[f.aux % others.len()];
+                    let d = others[((f.param >> 1) as usize) % others.len()];
                     let list: Vec<_> = sess.verifier.comms.iter().map(|c| if c.label() == victim { LabeledCommitment::new(c.label().clone(), c.commitment().clone(), Some(d)) } else { c.clone() }).collect();
                     cases.push(("degree-bound-label".into(), sess.verifier.vk.clone(), list, claim.clone()));
                 }
